@@ -116,6 +116,13 @@ def run(prog: Program, rep: Report, tier: str):
         in_cfg = [(n, val) for n, val in defs if n in cfg_body]
         body_entry = R.body_entry(CN)
         inits = [n for n, val in in_cfg if val is not None and fa.sym.term(val, n) == ("const", False)]
+        first_verdicts = []
+        if not inits:
+            # no 'V = False' reset: the first store of every config iteration plays that role when nothing of this
+            # iteration can have set V before it (it then overwrites no verdict)
+            first_verdicts = [n for n, val in in_cfg if val is not None and not any(
+                m != n and R.same_iteration_path(CN, m, n) for m, _ in in_cfg)]
+            inits = first_verdicts
         init_ok = bool(inits) and R.within_iteration(CN, body_entry, guard[0], set(inits)) and not [
             n for n, val in defs if n not in cfg_body]
         rep.decide(init_ok, "G8.decision-monotone", fi, "init-false",
@@ -126,7 +133,7 @@ def run(prog: Program, rep: Report, tier: str):
         rd = cfg.reaching()
         seen_units = set()
         for n, val in in_cfg:
-            if n in inits:
+            if n in inits and n not in first_verdicts:
                 continue
             construct = f"store:{' '.join(ast.unparse(cfg.nodes[n].ast).split())[:90]}"
             if val is None:
@@ -134,15 +141,26 @@ def run(prog: Program, rep: Report, tier: str):
                 continue
             t = fa.sym.term(val, n)
             reach = set(rd.get(n, {}).get(V, ()))
-            monotone = t == ("const", True) or (t[0] == "or" and any(x[0] == "var" and x[1] == V for x in t[1]))
-            sole_init = reach <= set(inits)
+            parts_here = fa.cond_parts_at(n)
+            # 'if not V and ...: V = <verdict>' overwrites only a False V (V itself unchanged between the test and the store)
+            not_v = [(e, pol, c, tn) for e, pol, c, tn in parts_here if isinstance(e, ast.Name) and e.id == V and not pol
+                     and set(rd.get(tn, {}).get(V, ())) == reach]
+            monotone = t == ("const", True) or (t[0] == "or" and any(x[0] == "var" and x[1] == V for x in t[1])) or bool(
+                not_v)
+            sole_init = reach <= set(inits) - set(first_verdicts) or n in first_verdicts
             rep.decide(monotone or sole_init, "G8.decision-monotone", fi, construct,
                        "monotone store" if monotone else "overwrites only the initial False",
                        f"'{V}' is overwritten by a fresh verdict although an earlier interval kind may already have set "
                        f"it (definitions from lines {sorted(R.line(x) for x in reach - set(inits))} reach this store): "
                        f"a config with several interval kinds loses passes", line=R.line(n), clause="C05.1")
             # ---- unit consistency of this store ------------------------------------------------------------
-            conds = fa.conds_at(n)
+            conds = [x for e, pol, c, tn in parts_here if not (isinstance(e, ast.Name) and e.id == V)
+                     for x in (c[1] if c[0] == "and" else (c,))]
+            if t[0] == "and":
+                # V = (config.every_n_x is not None and <test>): the None-test is a conjunct of the stored verdict
+                conds += [x for x in t[1] if _is_not_none(x, lambda y: _cfg_attr(y, cfg_term) in UNITS)]
+                rest_ = tuple(x for x in t[1] if not _is_not_none(x, lambda y: _cfg_attr(y, cfg_term) in UNITS))
+                t = rest_[0] if len(rest_) == 1 else ("and", rest_)
             unit_attr = None
             for c in conds:
                 for ua in UNITS:
@@ -214,7 +232,9 @@ def run(prog: Program, rep: Report, tier: str):
                                      None if every else "a path from the update to the next index skips the config loop")
                          if x), line=R.line(R.cfg_iter), clause="C05.2")
     it = fa.sym.term(R.cfg_loop.iter, R.cfg_iter)
-    in_order = it in (("self", "configs"), ("call", ("global", "enumerate"), (("self", "configs"),), ()))
+    in_order = it in (("self", "configs"), ("call", ("global", "enumerate"), (("self", "configs"),), ())) or (
+        it[0] == "call" and it[1] == ("global", "zip") and not it[3] and ("self", "configs") in it[2]
+        and all(a == ("self", "configs") or a[0] == "self" for a in it[2]))
     rep.decide(in_order, "G8.pass-position", fi, "config-order", "iterates self.configs in list order",
                f"iterates {show(it)}", line=R.line(R.cfg_iter), clause="C05.2", nontrivial=False)
     lasts = R.snapshots_of(S)
@@ -311,6 +331,11 @@ def _check_pass(rep: Report, R: Roles, p: PassLoop, tag: str):
     facts = pass_facts(R, p)
     kvar = R.cfg_idx_var
     want_off = ("sub", ("self", "index_offsets"), ("var", kvar, frozenset({R.cfg_next}))) if kvar else None
+    if want_off is None:
+        # for offset, config in zip(self.index_offsets, self.configs): the offset at the position of the current config
+        zv = [v for v, seq in R.zip_with.items() if seq == ("self", "index_offsets")]
+        if len(zv) == 1:
+            want_off = ("var", zv[0], frozenset({R.cfg_next}))
     rep.decide(bool(facts["config-of-enclosing-loop"]), "G5.offset-pairing", fi, "sampler-of-current-config",
                "the iterated sampler belongs to the config of the current enumerate step",
                f"the pass iterates {show(p.cfg_term)}.sampler, which is not the current element of the config loop",
